@@ -297,6 +297,11 @@ func NewResolver(cfg *config.Config) *Resolver {
 		r.rootKeys = append(r.rootKeys, rr)
 	}
 	r.configuredRootKeys = slices.Clone(r.rootKeys)
+	// The live set starts from the configuration, minus what this
+	// installation has already seen revoked: the first AutoTA run only
+	// happens after priming, and until then a tombstoned key the
+	// configuration still lists must not validate anything.
+	r.rootKeys = startupRootKeys(cfg.Directory, r.rootKeys)
 
 	// Initialize TCP connection pool if enabled
 	if cfg.TCPKeepalive {
